@@ -426,3 +426,339 @@ Lemma read_next_complete_stable d e a k r :
 Proof. intros H. pose proof (read_next_ext d e) as X. rewrite H in X. exact X. Qed.
 Lemma read_next_err_stable d e x : read_next d = Err x -> read_next (d ++ e) = Err x.
 Proof. intros H. pose proof (read_next_ext d e) as X. rewrite H in X. exact X. Qed.
+
+(* ---------- the encoder is read back ---------- *)
+Definition BIG : Z := 4611686018427387904.   (* 2^62: a Go slice is shorter *)
+Definition hdr (c : N) (n : N) : bytes := c :: dec n ++ [CR; LF].
+
+Lemma bulk_eq a : bulk a = hdr 36 (N.of_nat (length a)) ++ a ++ [CR; LF].
+Proof. unfold bulk, hdr. cbn [app]. rewrite <- app_assoc. reflexivity. Qed.
+Lemma enc_eq args : enc args = hdr 42 (N.of_nat (length args)) ++ bulks args.
+Proof. unfold enc, hdr. cbn [app]. rewrite <- app_assoc. reflexivity. Qed.
+Lemma len_hdr c n : len (hdr c n) = len (dec n) + 3.
+Proof. unfold hdr. rewrite len_cons, len_app, len_cons, len_cons, len_nil. lia. Qed.
+Lemma LF_not_digit : ~ digit_ok LF. Proof. unfold digit_ok, LF. lia. Qed.
+Lemma of_nat_len (A : Type) (l : list A) : Z.of_N (N.of_nat (length l)) = Z.of_nat (length l).
+Proof. lia. Qed.
+
+(* a complete "<skip><digits>\r\n" header *)
+Lemma read_len_hdr pre0 skip ds rest n :
+  Forall (fun x => x <> LF) skip -> Forall digit_ok ds -> parse_int ds = Some n ->
+  read_len (pre0 ++ skip ++ ds ++ [CR; LF] ++ rest) (len pre0) (len pre0 + len skip)
+  = LOk n (len pre0 + len skip + len ds + 1).
+Proof.
+  intros Hs Hd Hp. unfold read_len.
+  assert (Hno : Forall (fun x => x <> LF) (skip ++ ds ++ [CR])).
+  { apply Forall_app; split; [assumption|]. apply Forall_app; split.
+    - eapply Forall_impl; [|exact Hd]. intros x Hx ->. exact (LF_not_digit Hx).
+    - constructor; [discriminate|constructor]. }
+  replace (pre0 ++ skip ++ ds ++ [CR; LF] ++ rest) with (pre0 ++ (skip ++ ds ++ [CR]) ++ LF :: rest)
+    by (repeat rewrite <- app_assoc; reflexivity).
+  rewrite find_byte_skip by assumption.
+  replace (len pre0 + len (skip ++ ds ++ [CR]) - 1) with (len (pre0 ++ skip ++ ds) + 0)
+    by (rewrite !len_app, len_cons, len_nil; lia).
+  replace (pre0 ++ (skip ++ ds ++ [CR]) ++ LF :: rest) with ((pre0 ++ skip ++ ds) ++ CR :: LF :: rest)
+    by (repeat rewrite <- app_assoc; reflexivity).
+  rewrite getb_app_r by lia. rewrite getb_cons0. cbn [negb N.eqb CR Pos.eqb].
+  replace ((pre0 ++ skip ++ ds) ++ CR :: LF :: rest) with ((pre0 ++ skip) ++ ds ++ CR :: LF :: rest)
+    by (repeat rewrite <- app_assoc; reflexivity).
+  replace (len pre0 + len skip) with (len (pre0 ++ skip)) by (rewrite len_app; lia).
+  replace (len (pre0 ++ skip ++ ds) + 0) with (len (pre0 ++ skip) + len ds) by (rewrite !len_app; lia).
+  rewrite slice_mid. rewrite Hp. f_equal. rewrite !len_app, len_cons, len_nil. lia.
+Qed.
+
+(* a header cut before its LF *)
+Lemma read_len_cut pre0 tail s : Forall (fun x => x <> LF) tail ->
+  read_len (pre0 ++ tail) (len pre0) s = LNone.
+Proof. intros H. unfold read_len. rewrite find_byte_none by assumption. reflexivity. Qed.
+
+Lemma prefix_of_snoc (q l x : bytes) (y : N) : q ++ l = x ++ [y] -> l <> [] -> exists l', x = q ++ l'.
+Proof.
+  intros E Hl. destruct (exists_last Hl) as [l0 [z ->]].
+  rewrite app_assoc in E. apply app_inj_tail in E. destruct E as [E _]. eauto.
+Qed.
+
+Lemma one_step fuel pre a rest count j racc :
+  0 < count -> len (pre ++ bulk a) < BIG ->
+  let p := pre ++ bulk a ++ rest in
+  resp_args (S fuel) p (len p) count j (len pre) racc =
+  if j =? count - 1 then Complete (rev (a :: racc)) Redis rest
+  else resp_args fuel p (len p) count (j + 1) (len (pre ++ bulk a)) (a :: racc).
+Proof.
+  intros Hc Hbig p. unfold BIG in Hbig. cbn [resp_args].
+  set (n := N.of_nat (length a)).
+  assert (Hn : Z.of_N n = len a) by (unfold n; rewrite len_spec; lia).
+  pose proof (len_nonneg pre) as Hp0. pose proof (len_nonneg a) as Ha0. pose proof (len_nonneg rest) as Hr0.
+  pose proof (len_nonneg (dec n)) as Hd0.
+  assert (Hlb : len (bulk a) = len (dec n) + 3 + len a + 2).
+  { rewrite bulk_eq. fold n. rewrite !len_app, len_hdr, len_cons, len_cons, len_nil. lia. }
+  assert (Hlp : len p = len pre + len (bulk a) + len rest) by (unfold p; rewrite !len_app; lia).
+  rewrite len_app in Hbig.
+  destruct (Z.eqb_spec (len pre) (len p)) as [E|_]; [lia|].
+  assert (G0 : getb p (len pre) = Some 36%N).
+  { unfold p. replace (len pre) with (len pre + 0) at 1 by lia. rewrite getb_app_r by lia. reflexivity. }
+  rewrite G0. cbn [negb N.eqb Pos.eqb].
+  assert (RL : read_len p (len pre) (len pre + 1) = LOk (len a) (len pre + 1 + len (dec n) + 1)).
+  { unfold p. rewrite bulk_eq. fold n. unfold hdr.
+    replace (pre ++ ((36%N :: dec n ++ [CR; LF]) ++ a ++ [CR; LF]) ++ rest)
+      with (pre ++ [36%N] ++ dec n ++ [CR; LF] ++ (a ++ [CR; LF] ++ rest))
+      by (cbn [app]; repeat rewrite <- app_assoc; reflexivity).
+    replace (len pre + 1) with (len pre + len [36%N]) by reflexivity.
+    apply read_len_hdr.
+    - constructor; [discriminate|constructor].
+    - apply dec_digits.
+    - rewrite parse_int_dec by lia. f_equal. exact Hn. }
+  rewrite RL. destruct (Z.leb_spec count 0); [lia|].
+  set (i3 := len pre + 1 + len (dec n) + 1 + 1).
+  assert (Hi3 : i3 = len (pre ++ hdr 36 n)) by (unfold i3; rewrite len_app, len_hdr; lia).
+  rewrite (wrap_small (len a + 2)) by lia.
+  destruct (Z.leb_spec (len a + 2) (len p - i3)) as [_|L]; [|unfold i3 in L; lia].
+  rewrite (wrap_small (i3 + len a)) by (unfold i3; lia).
+  assert (Pe : p = (pre ++ hdr 36 n ++ a) ++ CR :: LF :: rest).
+  { unfold p. rewrite bulk_eq. fold n. repeat rewrite <- app_assoc. reflexivity. }
+  assert (G1 : getb p (i3 + len a) = Some CR).
+  { rewrite Pe. replace (i3 + len a) with (len (pre ++ hdr 36 n ++ a) + 0) by (rewrite Hi3, !len_app; lia).
+    rewrite getb_app_r by lia. reflexivity. }
+  rewrite G1. cbn [negb N.eqb CR Pos.eqb].
+  rewrite (wrap_small (i3 + len a + 1)) by (unfold i3; lia).
+  assert (G2 : getb p (i3 + len a + 1) = Some LF).
+  { rewrite Pe. replace (i3 + len a + 1) with (len (pre ++ hdr 36 n ++ a) + 1) by (rewrite Hi3, !len_app; lia).
+    rewrite getb_app_r by lia. reflexivity. }
+  rewrite G2. cbn [negb N.eqb LF Pos.eqb].
+  assert (Sa : slice p i3 (i3 + len a) = Some a).
+  { replace p with ((pre ++ hdr 36 n) ++ a ++ (CR :: LF :: rest))
+      by (rewrite Pe; repeat rewrite <- app_assoc; reflexivity).
+    rewrite Hi3. apply slice_mid. }
+  rewrite Sa.
+  rewrite (wrap_small (i3 + (len a + 2))) by (unfold i3; lia).
+  assert (Hi4 : i3 + (len a + 2) = len (pre ++ bulk a)) by (rewrite len_app, Hlb; unfold i3; lia).
+  rewrite Hi4.
+  destruct (j =? count - 1); [|reflexivity].
+  replace p with ((pre ++ bulk a) ++ rest) by (unfold p; rewrite <- app_assoc; reflexivity).
+  rewrite slice_from_app_exact. reflexivity.
+Qed.
+
+Lemma bulks_cons a rem : bulks (a :: rem) = bulk a ++ bulks rem.
+Proof. reflexivity. Qed.
+Lemma bulk_nonempty a : bulk a <> [].
+Proof. unfold bulk. discriminate. Qed.
+Lemma bulks_nil_inv rem : bulks rem = [] -> rem = [].
+Proof. destruct rem as [|a rem]; [reflexivity|]. rewrite bulks_cons. unfold bulk. discriminate. Qed.
+Lemma bulks_length rem : (length rem <= length (bulks rem))%nat.
+Proof. induction rem as [|a rem IH]; [cbn; lia|]. rewrite bulks_cons, app_length. unfold bulk. cbn [length]. lia. Qed.
+
+Lemma resp_args_enc : forall rem pre racc count j fuel r,
+  rem <> [] -> count - j = Z.of_nat (length rem) -> 0 <= j -> (length rem <= fuel)%nat ->
+  len (pre ++ bulks rem) < BIG ->
+  resp_args fuel (pre ++ bulks rem ++ r) (len (pre ++ bulks rem ++ r)) count j (len pre) racc
+  = Complete (rev racc ++ rem) Redis r.
+Proof.
+  induction rem as [|a rem IH]; intros pre racc count j fuel r Hne Hc Hj Hf Hbig; [congruence|].
+  destruct fuel as [|fuel]; [cbn in Hf; lia|]. cbn [length] in Hc, Hf.
+  rewrite bulks_cons, <- app_assoc.
+  pose proof (len_nonneg (bulks rem)) as Hb0.
+  rewrite one_step; [|lia|rewrite bulks_cons, app_assoc, len_app in Hbig; lia].
+  destruct rem as [|a2 rem].
+  - destruct (Z.eqb_spec j (count - 1)); [|cbn [length] in Hc; lia]. cbn [rev bulks flat_map app]. reflexivity.
+  - destruct (Z.eqb_spec j (count - 1)); [cbn [length] in Hc; lia|].
+    replace (pre ++ bulk a ++ bulks (a2 :: rem) ++ r) with ((pre ++ bulk a) ++ bulks (a2 :: rem) ++ r)
+      by (rewrite <- app_assoc; reflexivity).
+    rewrite IH; [|discriminate|cbn [length] in *; lia|lia|cbn [length] in *; lia|].
+    + cbn [rev]. rewrite <- app_assoc. reflexivity.
+    + rewrite <- app_assoc. rewrite bulks_cons in Hbig. exact Hbig.
+Qed.
+
+Lemma no_lf_prefix_hdr q l n : q ++ l = dec n ++ [CR; LF] -> l <> [] -> Forall (fun x => x <> LF) q.
+Proof.
+  intros E Hl. replace (dec n ++ [CR; LF]) with ((dec n ++ [CR]) ++ [LF]) in E by (rewrite <- app_assoc; reflexivity).
+  destruct (prefix_of_snoc _ _ _ _ E Hl) as [l' E'].
+  assert (F : Forall (fun x => x <> LF) (dec n ++ [CR])).
+  { apply Forall_app; split; [apply dec_no; exact LF_not_digit|]. constructor; [discriminate|constructor]. }
+  rewrite E' in F. apply Forall_app in F. tauto.
+Qed.
+
+(* a strict prefix of one bulk: the loop stops with Incomplete *)
+Lemma one_bulk_cut fuel pre a q s count j racc :
+  0 < count -> len (pre ++ bulk a) < BIG -> q ++ s = bulk a -> s <> [] ->
+  resp_args (S fuel) (pre ++ q) (len (pre ++ q)) count j (len pre) racc = Incomplete.
+Proof.
+  intros Hc Hbig E Hs. unfold BIG in Hbig. cbn [resp_args].
+  destruct q as [|c q].
+  { rewrite app_nil_r, Z.eqb_refl. reflexivity. }
+  pose proof (len_nonneg pre) as Hp0. pose proof (len_nonneg q) as Hq0.
+  destruct (Z.eqb_spec (len pre) (len (pre ++ c :: q))) as [E0|_]; [rewrite len_app, len_cons in E0; lia|].
+  assert (Hc36 : c = 36%N) by (unfold bulk in E; cbn [app] in E; congruence). subst c.
+  assert (G0 : getb (pre ++ 36%N :: q) (len pre) = Some 36%N).
+  { replace (len pre) with (len pre + 0) by lia. rewrite getb_app_r by lia. reflexivity. }
+  rewrite G0. cbn [negb N.eqb Pos.eqb].
+  set (n := N.of_nat (length a)).
+  assert (Hn : Z.of_N n = len a) by (unfold n; rewrite len_spec; lia).
+  assert (E1 : q ++ s = (dec n ++ [CR; LF]) ++ a ++ [CR; LF]).
+  { unfold bulk in E. fold n in E. cbn [app] in E. inversion E as [E2]. rewrite E2, <- app_assoc. reflexivity. }
+  apply app_eq_app in E1. destruct E1 as [l [[Eq Es]|[Eq Es]]].
+  - (* the header is complete: q = (dec n ++ [CR; LF]) ++ l, the body l is cut *)
+    subst q.
+    assert (RL : read_len (pre ++ 36%N :: (dec n ++ [CR; LF]) ++ l) (len pre) (len pre + 1)
+                 = LOk (len a) (len pre + 1 + len (dec n) + 1)).
+    { replace (pre ++ 36%N :: (dec n ++ [CR; LF]) ++ l) with (pre ++ [36%N] ++ dec n ++ [CR; LF] ++ l)
+        by (cbn [app]; repeat rewrite <- app_assoc; reflexivity).
+      replace (len pre + 1) with (len pre + len [36%N]) by reflexivity.
+      apply read_len_hdr.
+      - constructor; [discriminate|constructor].
+      - apply dec_digits.
+      - rewrite len_app in Hbig. pose proof (len_nonneg (dec n)).
+        assert (len (bulk a) = len (dec n) + 3 + len a + 2).
+        { rewrite bulk_eq. fold n. rewrite !len_app, len_hdr, len_cons, len_cons, len_nil. lia. }
+        rewrite parse_int_dec by lia. f_equal. exact Hn. }
+    rewrite RL. destruct (Z.leb_spec count 0); [lia|].
+    pose proof (len_nonneg a). rewrite (wrap_small (len a + 2)) by (rewrite len_app in Hbig;
+      assert (len (bulk a) = len (dec n) + 3 + len a + 2) by (rewrite bulk_eq; fold n; rewrite !len_app, len_hdr, len_cons, len_cons, len_nil; lia);
+      pose proof (len_nonneg (dec n)); lia).
+    assert (Hl : len l < len a + 2).
+    { assert (len (l ++ s) = len a + 2) by (rewrite <- Es, len_app, len_cons, len_cons, len_nil; lia).
+      rewrite len_app in H1. destruct s; [congruence|]. rewrite len_cons in H1. pose proof (len_nonneg s). lia. }
+    destruct (Z.leb_spec (len a + 2) (len (pre ++ 36%N :: (dec n ++ [CR; LF]) ++ l) - (len pre + 1 + len (dec n) + 1 + 1))) as [L|_]; [|reflexivity].
+    rewrite len_app, len_cons, !len_app, len_cons, len_cons, len_nil in L. lia.
+  - (* the header itself is cut: no LF yet *)
+    destruct l as [|x l].
+    + (* q is exactly the header, nothing of the body: same as the first case with an empty body *)
+      rewrite app_nil_r in Eq. subst q.
+      assert (RL : read_len (pre ++ 36%N :: (dec n ++ [CR; LF])) (len pre) (len pre + 1)
+                   = LOk (len a) (len pre + 1 + len (dec n) + 1)).
+      { replace (pre ++ 36%N :: (dec n ++ [CR; LF])) with (pre ++ [36%N] ++ dec n ++ [CR; LF] ++ [])
+          by (cbn [app]; reflexivity).
+        replace (len pre + 1) with (len pre + len [36%N]) by reflexivity.
+        apply read_len_hdr.
+        - constructor; [discriminate|constructor].
+        - apply dec_digits.
+        - rewrite len_app in Hbig. pose proof (len_nonneg (dec n)).
+          assert (len (bulk a) = len (dec n) + 3 + len a + 2).
+          { rewrite bulk_eq. fold n. rewrite !len_app, len_hdr, len_cons, len_cons, len_nil. lia. }
+          rewrite parse_int_dec by lia. f_equal. exact Hn. }
+      rewrite RL. destruct (Z.leb_spec count 0); [lia|].
+      pose proof (len_nonneg a). rewrite (wrap_small (len a + 2)) by (rewrite len_app in Hbig;
+        assert (len (bulk a) = len (dec n) + 3 + len a + 2) by (rewrite bulk_eq; fold n; rewrite !len_app, len_hdr, len_cons, len_cons, len_nil; lia);
+        pose proof (len_nonneg (dec n)); lia).
+      destruct (Z.leb_spec (len a + 2) (len (pre ++ 36%N :: (dec n ++ [CR; LF])) - (len pre + 1 + len (dec n) + 1 + 1))) as [L|_]; [|reflexivity].
+      rewrite len_app, len_cons, !len_app, len_cons, len_cons, len_nil in L. lia.
+    + assert (F : Forall (fun y => y <> LF) q).
+      { apply (no_lf_prefix_hdr q (x :: l) n); [symmetry; exact Eq|discriminate]. }
+      replace (pre ++ 36%N :: q) with (pre ++ (36%N :: q)) by reflexivity.
+      rewrite read_len_cut; [reflexivity|]. constructor; [discriminate|exact F].
+Qed.
+
+Lemma bulk_length_pos a : (1 <= length (bulk a))%nat.
+Proof. unfold bulk. cbn [length]. lia. Qed.
+
+Lemma resp_args_cut : forall rem pre racc count j fuel q s,
+  count - j = Z.of_nat (length rem) -> 0 <= j -> (length q <= fuel)%nat ->
+  len (pre ++ bulks rem) < BIG -> q ++ s = bulks rem -> s <> [] ->
+  resp_args (S fuel) (pre ++ q) (len (pre ++ q)) count j (len pre) racc = Incomplete.
+Proof.
+  induction rem as [|a rem IH]; intros pre racc count j fuel q s Hc Hj Hf Hbig E Hs.
+  { cbn in E. destruct q; cbn in E; [congruence|discriminate]. }
+  cbn [length] in Hc. rewrite bulks_cons in E, Hbig.
+  pose proof (len_nonneg (bulks rem)) as Hb0. pose proof (bulk_length_pos a) as Hbp.
+  apply app_eq_app in E. destruct E as [l [[Eq Es]|[Eq Es]]].
+  - (* q = bulk a ++ l : one full step, then the rest *)
+    destruct rem as [|a2 rem].
+    { cbn in Es. destruct l; [|discriminate]. cbn in Es. congruence. }
+    subst q. rewrite app_length in Hf. destruct fuel as [|fuel]; [lia|].
+    rewrite one_step; [|lia|rewrite app_assoc, len_app in Hbig; lia].
+    destruct (Z.eqb_spec j (count - 1)); [cbn [length] in Hc; lia|].
+    replace (pre ++ bulk a ++ l) with ((pre ++ bulk a) ++ l) by (rewrite <- app_assoc; reflexivity).
+    apply (IH (pre ++ bulk a) (a :: racc) count (j + 1) fuel l s); try assumption.
+    + cbn [length] in *; lia. + lia. + lia.
+    + rewrite <- app_assoc. exact Hbig. + symmetry; exact Es.
+  - (* q is a prefix of bulk a *)
+    destruct l as [|x l].
+    + (* q = bulk a exactly: s = bulks rem is non-empty *)
+      rewrite app_nil_r in Eq. subst q. cbn [app] in Es. subst s.
+      destruct rem as [|a2 rem]; [cbn in Hs; congruence|].
+      destruct fuel as [|fuel]; [lia|].
+      replace (pre ++ bulk a) with (pre ++ bulk a ++ []) by (rewrite app_nil_r; reflexivity).
+      rewrite one_step; [|lia|rewrite app_assoc, len_app in Hbig; lia].
+      destruct (Z.eqb_spec j (count - 1)); [cbn [length] in Hc; lia|].
+      replace (pre ++ bulk a ++ []) with ((pre ++ bulk a) ++ []) by (rewrite app_nil_r, app_nil_r; reflexivity).
+      apply (IH (pre ++ bulk a) (a :: racc) count (j + 1) fuel [] (bulks (a2 :: rem))); try assumption.
+      * cbn [length] in *; lia. * lia. * cbn [length]; lia.
+      * rewrite <- app_assoc. exact Hbig. * reflexivity.
+    + apply (one_bulk_cut fuel pre a q (x :: l)); [lia| |symmetry; exact Eq|discriminate].
+      rewrite app_assoc, len_app in Hbig. lia.
+Qed.
+
+(* ---------- read_next on an encoded command and on its strict prefixes ---------- *)
+Lemma enc_cons args : enc args = 42%N :: (dec (N.of_nat (length args)) ++ [CR; LF]) ++ bulks args.
+Proof. unfold enc. cbn [app]. rewrite <- app_assoc. reflexivity. Qed.
+
+Lemma read_len_count n tail : Z.of_N n < 9223372036854775808 ->
+  read_len (42%N :: dec n ++ [CR; LF] ++ tail) 1 1 = LOk (Z.of_N n) (1 + len (dec n) + 1).
+Proof.
+  intros Hn.
+  exact (read_len_hdr [42%N] [] (dec n) tail (Z.of_N n) (Forall_nil _) (dec_digits n) (parse_int_dec n Hn)).
+Qed.
+
+Lemma read_next_enc args r : args <> [] -> len (enc args) < BIG ->
+  read_next (enc args ++ r) = Complete args Redis r.
+Proof.
+  intros Hne Hbig. pose proof Hbig as Hbig'. unfold BIG in Hbig'.
+  set (n := N.of_nat (length args)).
+  assert (Hl : len (enc args) = len (hdr 42 n) + len (bulks args)) by (rewrite enc_eq, len_app; reflexivity).
+  pose proof (len_nonneg (bulks args)) as Hb0. pose proof (len_nonneg (dec n)) as Hd0.
+  pose proof (bulks_length args) as Hbl. rewrite len_hdr in Hl.
+  assert (Hn : Z.of_N n = Z.of_nat (length args)) by (unfold n; lia).
+  assert (Hnb : Z.of_N n < 9223372036854775808) by (rewrite Hn; pose proof (len_spec (bulks args)); lia).
+  rewrite enc_eq. fold n. unfold hdr. cbn [app read_next N.eqb Pos.eqb].
+  unfold read_resp. rewrite <- !app_assoc.
+  rewrite read_len_count by assumption.
+  destruct (Z.ltb_spec (Z.of_N n) 0); [lia|].
+  destruct (Z.eqb_spec (Z.of_N n) 0) as [E|_]; [destruct args; [congruence|cbn [length] in Hn; lia]|].
+  replace (42%N :: dec n ++ [CR; LF] ++ bulks args ++ r) with (hdr 42 n ++ bulks args ++ r)
+    by (unfold hdr; cbn [app]; rewrite <- app_assoc; reflexivity).
+  replace (1 + len (dec n) + 1 + 1) with (len (hdr 42 n)) by (rewrite len_hdr; lia).
+  rewrite resp_args_enc; [reflexivity|assumption|lia|lia| |].
+  - rewrite !app_length. lia.
+  - unfold n. rewrite <- enc_eq. exact Hbig.
+Qed.
+
+Lemma read_next_enc_cut args q s : args <> [] -> len (enc args) < BIG -> q ++ s = enc args -> s <> [] ->
+  read_next q = Incomplete.
+Proof.
+  intros Hne Hbig E Hs. pose proof Hbig as Hbig'. unfold BIG in Hbig'.
+  set (n := N.of_nat (length args)) in *.
+  assert (Hl : len (enc args) = len (hdr 42 n) + len (bulks args)) by (rewrite enc_eq, len_app; reflexivity).
+  pose proof (len_nonneg (bulks args)) as Hb0. pose proof (len_nonneg (dec n)) as Hd0.
+  pose proof (bulks_length args) as Hbl. rewrite len_hdr in Hl.
+  assert (Hn : Z.of_N n = Z.of_nat (length args)) by (unfold n; lia).
+  assert (Hnb : Z.of_N n < 9223372036854775808) by (rewrite Hn; pose proof (len_spec (bulks args)); lia).
+  destruct q as [|c q]; [reflexivity|].
+  rewrite enc_cons in E. fold n in E. cbn [app] in E. inversion E as [[Ec E1]]. subst c.
+  cbn [read_next N.eqb Pos.eqb]. unfold read_resp.
+  apply app_eq_app in E1. destruct E1 as [l [[Eq Es]|[Eq Es]]].
+  - subst q. rewrite <- app_assoc. rewrite read_len_count by assumption.
+    destruct (Z.ltb_spec (Z.of_N n) 0); [lia|].
+    destruct (Z.eqb_spec (Z.of_N n) 0) as [E0|_]; [destruct args; [congruence|cbn [length] in Hn; lia]|].
+    replace (42%N :: dec n ++ [CR; LF] ++ l) with (hdr 42 n ++ l)
+      by (unfold hdr; cbn [app]; rewrite <- app_assoc; reflexivity).
+    replace (1 + len (dec n) + 1 + 1) with (len (hdr 42 n)) by (rewrite len_hdr; lia).
+    apply (resp_args_cut args (hdr 42 n) [] (Z.of_N n) 0 (length (hdr 42 n ++ l)) l s); try lia; try assumption.
+    + rewrite !app_length. lia.
+    + unfold n. rewrite <- enc_eq. exact Hbig.
+    + symmetry; exact Es.
+  - destruct l as [|x l].
+    + rewrite app_nil_r in Eq. subst q. cbn [app] in Es. subst s.
+      replace (42%N :: dec n ++ [CR; LF]) with (42%N :: dec n ++ [CR; LF] ++ []) by reflexivity.
+      rewrite read_len_count by assumption.
+      destruct (Z.ltb_spec (Z.of_N n) 0); [lia|].
+      destruct (Z.eqb_spec (Z.of_N n) 0) as [E0|_]; [destruct args; [congruence|cbn [length] in Hn; lia]|].
+      replace (42%N :: dec n ++ [CR; LF] ++ []) with (hdr 42 n ++ []) by (unfold hdr; rewrite app_nil_r; reflexivity).
+      replace (1 + len (dec n) + 1 + 1) with (len (hdr 42 n)) by (rewrite len_hdr; lia).
+      apply (resp_args_cut args (hdr 42 n) [] (Z.of_N n) 0 (length (hdr 42 n ++ [])) [] (bulks args)); try lia; try assumption.
+      * cbn [length]. lia.
+      * unfold n. rewrite <- enc_eq. exact Hbig.
+      * reflexivity.
+    + assert (F : Forall (fun y => y <> LF) q).
+      { apply (no_lf_prefix_hdr q (x :: l) n); [symmetry; exact Eq|discriminate]. }
+      replace (42%N :: q) with ([42%N] ++ q) by reflexivity.
+      change 1 with (len [42%N]) at 1. rewrite read_len_cut by assumption. reflexivity.
+Qed.
